@@ -1,5 +1,6 @@
 import NiftyVerif.Core.Proto
 import NiftyVerif.Model.Grid
+import NiftyVerif.Gen.GridWeights
 open Lean NiftyVerif.Proto NiftyVerif.Grid
 
 def parseAxis (j : Json) : Option Axis := do
@@ -78,6 +79,10 @@ def handle (j : Json) : Json :=
     | some o, some ax, some bases, some cs, some ps, some hc, some hp, some win =>
       flatDump { o := o, ax := ax, bases := bases, childShape := cs, parentShape := ps } hc hp win
     | _, _, _, _, _, _, _, _ => jErr "bad-args"
+  | some "weightsSerialGen" =>
+    match fNatList? j "shape" with
+    | some sh => jNats (NiftyVerif.Gen.weightsSerialGen sh)
+    | none => jErr "bad-args"
   | some "parseIndex" =>
     match fNat? j "n", fIntList? j "is" with
     | some n, some is_ => if n == 0 then jErr "ZeroDivisionError" else jNats (is_.map (parseIndex n))
